@@ -70,7 +70,11 @@ def ev(e, x, p, t, V):
         if k == '-': return a - b
         if k == '*': return a * b
         if k == '/': return a / b
-        if k == '^': return a ** b
+        if k == '^':
+            r = a ** b
+            if isinstance(r, complex):
+                raise ValueError('negative base with a fractional exponent: outside the real domain, the case is skipped')
+            return r
         return min(a, b) if k == 'min' else max(a, b)
     a = ev(e[1], x, p, t, V)
     if k == 'exp': return math.exp(a)
